@@ -39,6 +39,25 @@ def retryable (known : List Entry) : GoErr → Bool
   | .wrap _ inner => retryable known inner
   | .twirp _ _ => false
 
+/-- `errors.Is(x, e)` for a known sentinel `e`: pointer identity somewhere along the unwrap chain -/
+def GoErr.is : GoErr → Entry → Bool
+  | .reg e', e => decide (e' = e)
+  | .opaque _, _ => false
+  | .wrap _ inner, e => inner.is e
+  | .twirp _ _, _ => false
+
+/-- a TEXT-PRESERVING wrapper chain around a known sentinel: `fmt.Errorf("%w", e)`, `errors.Join(e)`, a wrapper type
+whose `Error()` is the inner one's, nested `n` times — `Error()` is the sentinel's message, `errors.Is(·, e)` holds -/
+def sameText (e : Entry) : Nat → GoErr
+  | 0 => .reg e
+  | n + 1 => .wrap e.msg (sameText e n)
+
+/-- NOT the code: the classification obtained by comparing with `err == e` instead of `errors.Is(err, e)`
+(only the sentinel itself is recognised). Used by the regression witness `unwrap_is_needed` only. -/
+def retryableEq (known : List Entry) : GoErr → Bool
+  | .reg e => known.contains e && e.retryable
+  | _ => false
+
 structure Wire where
   code : String
   msg : String
